@@ -635,6 +635,61 @@ func (e *emitter) c09Assigns(s *source, rel, goName, leanName string) {
 		goName, rel, leanName, strings.Join(items, ", "))
 }
 
+// c09Ranges emits every `for k, v := range X` of a function as a typed list (key, value, ranged expression).
+func (e *emitter) c09Ranges(s *source, rel, goName, leanName string) {
+	fd := s.findFunc(rel, goName)
+	if fd == nil {
+		e.errors = append(e.errors, "function "+goName+" not found in "+rel)
+		e.printf("/-- MISSING -/\ndef %s : List (String × String × String) := []\n\n", leanName)
+		return
+	}
+	var items []string
+	ast.Inspect(fd.Body, func(n ast.Node) bool {
+		if r, ok := n.(*ast.RangeStmt); ok {
+			k, v := "", ""
+			if r.Key != nil {
+				k = s.src(r.Key)
+			}
+			if r.Value != nil {
+				v = s.src(r.Value)
+			}
+			items = append(items, fmt.Sprintf("(%s, %s, %s)", leanString(k), leanString(v), leanString(s.src(r.X))))
+		}
+		return true
+	})
+	e.printf("/-- range loops of `%s` (%s): key, value, ranged expression -/\ndef %s : List (String × String × String) :=\n  [%s]\n\n",
+		goName, rel, leanName, strings.Join(items, ", "))
+}
+
+// c09PackageVars lists the package-level variables of a file (name and initialiser): package-level state and
+// tables a function could consult besides its receiver.
+func c09PackageVars(s *source, rel string) []string {
+	f := s.file(rel)
+	if f == nil {
+		return []string{"MISSING"}
+	}
+	var out []string
+	for _, d := range f.Decls {
+		gd, ok := d.(*ast.GenDecl)
+		if !ok || gd.Tok != token.VAR {
+			continue
+		}
+		for _, sp := range gd.Specs {
+			vs := sp.(*ast.ValueSpec)
+			for i, nm := range vs.Names {
+				init := ""
+				if i < len(vs.Values) {
+					init = s.src(vs.Values[i])
+				} else if vs.Type != nil {
+					init = "zero " + s.src(vs.Type)
+				}
+				out = append(out, nm.Name+" = "+init)
+			}
+		}
+	}
+	return out
+}
+
 func init() {
 	register("C09", func(s *source, e *emitter) {
 		const tree = "core/search/tree.go"
@@ -756,6 +811,16 @@ func init() {
 		e.c09DetailDef(s, srv, "corsRouter.ServeHTTP", "corsRouterServeStmts")
 		e.c09Cond(s, corsf, "Middleware", "condCorsPreflight", c09If(1), []c09Param{{"r.Method", "method", "str"}})
 		e.c09Cond(s, corsf, "NotAllowedHandler", "condCorsNAOptions", c09If(1), []c09Param{{"r.Method", "method", "str"}})
+		// round 5e: WHICH methods the 405 decision looks at (seeded change C09-10: a fixed method list instead of the trees)
+		e.c09Ranges(s, pat, "patRouter.methodsAllowed", "methodsAllowedRanges")
+		e.c09Ranges(s, tree, "node.forEach", "forEachRanges")
+		e.c09Ranges(s, eng, "engine.bindRoutes", "engineBindRoutesRanges")
+		e.c09Ranges(s, eng, "engine.bindFeaturedRoutes", "engineBindFeaturedRanges")
+		e.c09Ranges(s, srv, "Server.Routes", "serverRoutesRanges")
+		e.c09Ranges(s, srv, "WithPrefix", "withPrefixRanges")
+		e.stringList("patrouterPackageVars", "package-level variables of "+pat, c09PackageVars(s, pat))
+		e.stringList("treePackageVars", "package-level variables of "+tree, c09PackageVars(s, tree))
+		e.stringList("pathvarPackageVars", "package-level variables of "+pv, c09PackageVars(s, pv))
 		// round 5c: every structure ServeHTTP reads and Handle writes (seeded change C09-9: a second dispatch structure)
 		e.c09Access(s, pat, "patRouter.Handle", "handleAccess")
 		e.c09Access(s, pat, "patRouter.ServeHTTP", "serveAccess")
